@@ -319,3 +319,30 @@ Print Assumptions C03_names_are_original_plaintext_substrings_partial.
 Print Assumptions C03_archive_enc_open_list.
 Print Assumptions C03_archive_same_length_end.
 Print Assumptions C03_D17_refuted.
+
+(* ---------- Tie A, decision logic (tools/src2v2.py -> gen/Src2.v): load_in_cache compares the tag before the cache is filled; every positioned seek reloads the chunk ---------- *)
+From MLA Require SrcTie2b SrcTie2Events.
+Check SrcTie2b.eload_src.
+Theorem C03_tie_eload_src : ltac:(let t := type of SrcTie2b.eload_src in exact t).
+Proof. exact SrcTie2b.eload_src. Qed.
+Print Assumptions C03_tie_eload_src.
+Check SrcTie2b.load_failure_leaves_cache_empty.
+Theorem C03_tie_load_failure_leaves_cache_empty : ltac:(let t := type of SrcTie2b.load_failure_leaves_cache_empty in exact t).
+Proof. exact SrcTie2b.load_failure_leaves_cache_empty. Qed.
+Print Assumptions C03_tie_load_failure_leaves_cache_empty.
+Check SrcTie2Events.load_in_cache_order.
+Theorem C03_tie_load_in_cache_order : ltac:(let t := type of SrcTie2Events.load_in_cache_order in exact t).
+Proof. exact SrcTie2Events.load_in_cache_order. Qed.
+Print Assumptions C03_tie_load_in_cache_order.
+Check SrcTie2Events.enc_seek_always_loads.
+Theorem C03_tie_enc_seek_always_loads : ltac:(let t := type of SrcTie2Events.enc_seek_always_loads in exact t).
+Proof. exact SrcTie2Events.enc_seek_always_loads. Qed.
+Print Assumptions C03_tie_enc_seek_always_loads.
+Check SrcTie2Events.EV_load_in_cache_shape.
+Theorem C03_tie_EV_load_in_cache_shape : ltac:(let t := type of SrcTie2Events.EV_load_in_cache_shape in exact t).
+Proof. exact SrcTie2Events.EV_load_in_cache_shape. Qed.
+Print Assumptions C03_tie_EV_load_in_cache_shape.
+Check SrcTie2Events.EV_enc_seek_shape.
+Theorem C03_tie_EV_enc_seek_shape : ltac:(let t := type of SrcTie2Events.EV_enc_seek_shape in exact t).
+Proof. exact SrcTie2Events.EV_enc_seek_shape. Qed.
+Print Assumptions C03_tie_EV_enc_seek_shape.
